@@ -459,9 +459,25 @@ static HOOKS: Hooks = Hooks { before: hook_before, after: hook_after, futex_wait
 // ------------------------------------------------------------------------------------------
 // worker programs
 // ------------------------------------------------------------------------------------------
+/// The protected value.  Its Debug impl is a yield point and logs a data read, so that
+/// `format!("{:?}", mutex)` (which reads the value under an internal guard) and formatting through a
+/// guard are observed like every other access.
+#[derive(Default)]
+struct Data(u64);
+impl std::fmt::Debug for Data {
+    fn fmt(&self, f: &mut std::fmt::Formatter<'_>) -> std::fmt::Result {
+        let me = TID.with(Cell::get);
+        if me != 0 && !ABORTING.with(Cell::get) {
+            let _ = yield_point(me, Pending::Data);
+            data_event(me, "read", "debug", self.0);
+        }
+        write!(f, "{}", self.0)
+    }
+}
+
 enum LockObj {
-    M(Mutex<u64>),
-    R(RwLock<u64>),
+    M(Mutex<Data>),
+    R(RwLock<Data>),
 }
 
 fn ev_call(me: usize, f: &str) {
@@ -527,8 +543,8 @@ fn run_program(me: usize, lock: &LockObj, prog: &[String]) {
                     "A" => {
                         if let Some(g) = guard.as_mut() {
                             let _ = yield_point(me, Pending::Data);
-                            let v = **g;
-                            **g = v + 1;
+                            let v = g.0;
+                            g.0 = v + 1;
                             data_event(me, "write", "mutex", v);
                         }
                     }
@@ -538,6 +554,14 @@ fn run_program(me: usize, lock: &LockObj, prog: &[String]) {
                             mark_unlocking(me);
                             drop(g);
                             ev_ret(me, "unlock", true, Some(0));
+                        }
+                    }
+                    // format!("{:?}", mutex): try_lock + read through an internal guard + drop, or "<locked>"
+                    "D" => {
+                        if guard.is_none() {
+                            ev_call(me, "debug");
+                            let txt = format!("{m:?}");
+                            ev_ret(me, "debug", !txt.contains("<locked>"), None);
                         }
                     }
                     _ => {}
@@ -588,12 +612,12 @@ fn run_program(me: usize, lock: &LockObj, prog: &[String]) {
                     "A" => {
                         if let Some(g) = wg.as_mut() {
                             let _ = yield_point(me, Pending::Data);
-                            let v = **g;
-                            **g = v + 1;
+                            let v = g.0;
+                            g.0 = v + 1;
                             data_event(me, "write", "write", v);
                         } else if let Some(g) = rg.as_ref() {
                             let _ = yield_point(me, Pending::Data);
-                            let v = **g;
+                            let v = g.0;
                             data_event(me, "read", "read", v);
                         }
                     }
@@ -952,7 +976,7 @@ impl Follow {
 
 fn run_once(spec: &RunSpec, chooser: Chooser, follow_len: usize) -> (RunResult, Chooser) {
     let n = spec.progs.len();
-    let lock = Arc::new(if spec.rw { LockObj::R(RwLock::new(0)) } else { LockObj::M(Mutex::new(0)) });
+    let lock = Arc::new(if spec.rw { LockObj::R(RwLock::new(Data(0))) } else { LockObj::M(Mutex::default()) });
     let base = match &*lock {
         LockObj::M(m) => (std::ptr::from_ref(m) as usize, std::mem::size_of_val(m)),
         LockObj::R(r) => (std::ptr::from_ref(r) as usize, std::mem::size_of_val(r)),
@@ -1024,8 +1048,33 @@ fn run_once(spec: &RunSpec, chooser: Chooser, follow_len: usize) -> (RunResult, 
     for h in handles {
         let _ = h.join();
     }
+    // the run is over and every thread is gone: the remaining public operations on the quiescent
+    // lock (this thread is not controlled, everything passes through to the real atomics).
+    // try_lock / try_write must succeed when no guard is outstanding; get_mut / into_inner must
+    // deliver the value the write accesses left.
+    let clean = {
+        let s = lock_shared();
+        blocked.is_empty() && !s.cut && (1..=n).all(|t| !s.th[t].panicked)
+    };
+    let mut fin = String::new();
+    if clean {
+        let try_ok = match &*lock {
+            LockObj::M(m) => m.try_lock().is_some(),
+            LockObj::R(r) => r.try_write().is_some(),
+        };
+        if let Ok(obj) = Arc::try_unwrap(lock) {
+            let (gm, inner) = match obj {
+                LockObj::M(mut m) => (m.get_mut().0, m.into_inner().0),
+                LockObj::R(mut r) => (r.get_mut().0, r.into_inner().0),
+            };
+            fin = format!("{{\"ev\":\"final\",\"try_ok\":{try_ok},\"get_mut\":{gm},\"into_inner\":{inner}}}");
+        }
+    }
     let mut s = lock_shared();
-    let log = std::mem::take(&mut s.log);
+    let mut log = std::mem::take(&mut s.log);
+    if !fin.is_empty() {
+        log.push(fin);
+    }
     let r = RunResult { sched: std::mem::take(&mut s.sched), blocked, cut: s.cut, diverged: s.diverged.take(), log };
     let ch = s.chooser.take().expect("chooser");
     (r, ch)
@@ -1487,7 +1536,7 @@ fn mode_real(path: &str) {
     if v.get("scenarios").and_then(Value::as_bool).unwrap_or(true) {
         futex_scenarios(&mut out);
     }
-    let lock = Arc::new(if rw { LockObj::R(RwLock::new(0)) } else { LockObj::M(Mutex::new(0)) });
+    let lock = Arc::new(if rw { LockObj::R(RwLock::new(Data(0))) } else { LockObj::M(Mutex::default()) });
     let ticket = Arc::new(std::sync::atomic::AtomicU64::new(0));
     let progress = Arc::new(std::sync::atomic::AtomicU64::new(0));
     let finished = Arc::new(CoreAtomicU32::new(0));
@@ -1519,8 +1568,8 @@ fn mode_real(path: &str) {
                             m.lock()
                         };
                         e = ticket.fetch_add(1, Ordering::SeqCst);
-                        val = *g;
-                        *g = val + 1;
+                        val = g.0;
+                        g.0 = val + 1;
                         if rng.below(8) == 0 {
                             std::thread::yield_now();
                         }
@@ -1540,7 +1589,7 @@ fn mode_real(path: &str) {
                                 r.read()
                             };
                             e = ticket.fetch_add(1, Ordering::SeqCst);
-                            val = *g;
+                            val = g.0;
                             if rng.below(4) == 0 {
                                 std::thread::yield_now();
                             }
@@ -1558,8 +1607,8 @@ fn mode_real(path: &str) {
                                 r.write()
                             };
                             e = ticket.fetch_add(1, Ordering::SeqCst);
-                            val = *g;
-                            *g = val + 1;
+                            val = g.0;
+                            g.0 = val + 1;
                             if rng.below(8) == 0 {
                                 std::thread::yield_now();
                             }
@@ -1628,8 +1677,8 @@ fn mode_real(path: &str) {
         0 // a panicked holder may have left the lock taken: do not touch it again
     } else {
         match &*lock {
-            LockObj::M(m) => *m.lock(),
-            LockObj::R(r) => *r.read(),
+            LockObj::M(m) => m.lock().0,
+            LockObj::R(r) => r.read().0,
         }
     };
     writeln!(
